@@ -423,14 +423,14 @@ def j_binary(ctx, h, tiebreaks):
             for cfg in rng.sample(cfgs, 40):
                 jobs.append((sc, dict(cfg)))
         scs += big
-    # extra dimensions on a sample: scheme, --tail on the non-streaming paths, restricted CPU set (partition count)
+    # extra dimensions on a sample: scheme, --tail (trimmed first chunk), restricted CPU set (partition count)
     extra = []
     for sc, cfg in rng.sample(jobs, min(len(jobs), ctx.pick(120, 1500))):
         c = dict(cfg)
         r = rng.random()
         if r < 0.35:
             c["scheme"] = rng.choice(["path", "history"])
-        elif r < 0.75 and (c["sort"] or c["tac"]) and len(sc.list) > 3:
+        elif r < 0.75 and len(sc.list) > 3:
             n = len(sc.list)
             c["tail"] = rng.choice([1, n // 2, n - 1, max(1, n - 100), max(1, n - 101), max(1, n - 250)])
         else:
@@ -531,8 +531,7 @@ def run(ctx):
         "harness, exact positions)",
         "vocabulary lines are <= 14 symbols of spec/FzfChars.tla, so the 16-bit clamps of length/offset keys are bound "
         "only through TLC-generated buildResult cases with out-of-range scores, not through 65 536-character lines",
-        "--tail is exercised only on the non-streaming filter paths (sort or --tac); the streaming path ignoring --tail "
-        "is C06's finding F10",
+        "--tail N is read as documented: the result is computed over the last N input lines",
         "partition count of the binary is min(8*NumCPU, 32); varied with taskset where available, forced to "
         "1,2,3,7,32 in-package",
     ]
